@@ -32,6 +32,7 @@ func init() {
 			{ID: "R13j", Floor: 1, Doc: "Header.HasIndex means exactly `IndexOffset != 0`: Inspect, the readers and verify decide by it whether an index must be readable; an offset that is set but implausible is an error to report, not an absent index", Run: ruleR13j},
 			{ID: "R13k", Floor: 1, Doc: "no new mutable package-level state in the library: a package-level variable the pinned tree does not have is not written after initialisation (directly, or through a repository function given its address) — an inspection reports what is in the archive, not what an earlier call or another reader left in a memo", Run: ruleR13k},
 			{ID: "R13l", Floor: 1, Doc: "what Inspect accepts depends on parser options only: it reads no index or writer option (MaxIndexCidSize, StoreIdentityCIDs, IndexCodec, paddings, ...), so it succeeds exactly where a scan with the same reader options does", Run: ruleR13l},
+			{ID: "R13m", Floor: 1, Doc: "Inspect stops reading at the zero-length section it treats as the end: from the ZeroLengthSectionAsEOF outcome nothing reads the payload reader any more", Run: ruleR13m},
 		},
 	})
 }
